@@ -17,7 +17,7 @@ var commonStub = []string{
 
 const schedRule = " Every run is one seed: the plan (workload, faults, sizes, knobs) is drawn from the seed's plan tape, the scheduling policy (sticky / uniform random / PCT with random depth) and every scheduling decision from its schedule tape; yield points are every mutex operation, channel operation, select, go statement, timer, simulated I/O call and designated field access of the instrumented galene sources. 'distinct' counts distinct schedule digests (a hash of the sequence of (task, yield point) pairs actually executed), 'states' counts distinct end-state signatures where the scenario defines one."
 
-const mediaRule = "media scenario: a publisher's RTP stream (VP8/VP9/H264/opus, optional simulcast layers and SVC, sequence-number and picture-id wrap, random start values) is read by the real readLoop through a simulated TrackRemote with loss, duplication and reordering on the way up; 1-3 subscribers with the real rtpWriterLoop / rtpDownTrack.Write / packetmap, receiver reports, REMB, PLI and NACKs from the subscribers (simulated RTCP feeds), layer requests and bitrate changes, NACK-driven retransmission from the real packet cache, and a tap on everything each subscriber is sent. A run is non-trivial when packets were presented to a subscriber and at least one of: packets withheld by layer selection, upstream loss, reordering, or a subscriber event happened."
+const mediaRule = "media scenario: a publisher's RTP stream (VP8/VP9/H264/opus, optional simulcast layers and SVC, sequence-number and picture-id wrap, random start values) is read by the real readLoop through a simulated TrackRemote with loss, duplication and reordering on the way up; 1-3 subscribers with the real rtpWriterLoop / rtpDownTrack.Write / packetmap, receiver reports, REMB, PLI and NACKs from the subscribers (simulated RTCP feeds), layer requests and bitrate changes, NACK-driven retransmission from the real packet cache, VP8 packets that begin a later partition of a frame, subscribers whose transport blocks for a while (the server's writer queue overflows), and a tap on everything each subscriber is sent. A run is non-trivial when packets were presented to a subscriber and at least one of: packets withheld by layer selection, upstream loss, reordering, or a subscriber event happened."
 
 var mediaReal = []string{
 	"rtpconn: readLoop, rtpUpTrack, rtpWriterLoop, writerPool, rtpDownTrack.Write/write, gotNACK, sendSequence, nackWriter, sendUpRTCP, rtcpUpListener/rtcpDownListener, handleReport, adjustLayer/updateRate (instrumented copies of the working tree)",
@@ -79,7 +79,7 @@ var propsMeta = map[string]PropMeta{
 		Real: []string{"group: AddClient, DelClient, autoLockKick, Add/Delete/Update, description handling (instrumented copy of the working tree)"}, Stub: []string{"clients: simulator tasks implementing group.Client", "group files: simulated file system"},
 	},
 	"C11": {
-		Rule: "authorisation scenario: clients of every role (op, presenter, observer, message-only, token holders, outsiders, WHIP publishers) issue every user action, group action, token operation, chat and WHIP resource request, interleaved with permission changes, kicks and description rewrites; oracle: a reference model of 'permission held when the server handled the message' (server-side handling probes) judges every effect and every disclosure (token lists, other users' data, WHIP resources). Non-trivial: more than three messages handled." + schedRule,
+		Rule: "authorisation scenario: clients of every role (op, presenter, observer, message-only, token holders, outsiders, WHIP publishers) issue every user action, group action, token operation, chat and WHIP resource request, interleaved with permission changes, kicks (also of a member that moves to another group straight away), description rewrites, and two clients of one description entry being granted different permissions; oracle: a reference model of 'permission held when the server handled the message' (server-side handling probes) judges every effect and every disclosure (token lists, other users' data, WHIP resources). Non-trivial: more than three messages handled." + schedRule,
 		Real: confReal, Stub: confStub,
 	},
 	"C12": {
